@@ -161,6 +161,8 @@ def plan(tier, seed):
         sh.append({"kind": "coldsched", "trials": trials[i : i + per], "tier": tier, "_name": f"coldsched-{i // per}"})
     for i in range(1 if tier == "quick" else 4):
         sh.append({"kind": "afterfail", "part": i, "tier": tier, "_name": f"afterfail-{i}"})
+    for i in range(2 if tier == "quick" else 24):
+        sh.append({"kind": "twopoint", "part": i, "tier": tier, "_name": f"twopoint-{i}"})
     cf = coldfocus_trials(p, tier)
     per = 2 if tier == "quick" else 8
     for i in range(0, len(cf), per):
@@ -830,6 +832,53 @@ def run_coldfocus(shard, mon, S, p):
         mon.sample({"first_use_trial": {"first_call": p[a], "second_call": p[b], "preempt_first_at_step_inside_checksum_modules": k}})
 
 
+def run_twopoint(shard, mon, S, p):
+    """Two preemption points, all combinations: the partner is started first and suspended after k2 steps (it may
+    be holding on to something it has just created or fetched), the call under test runs up to its k1-th step, the
+    partner runs to its end (and lets go of everything), the call under test finishes.  For pairs of look-ups of
+    the same bank key - the calls whose intermediate objects other calls could be made to depend on."""
+    from vf.mon.sched import Scheduler  # noqa: PLC0415
+
+    rng = env.rng("C14", "twopoint", shard["part"])
+    g = groups_of(p)
+    multi = sorted(n_ for n_ in g if n_.startswith(("multi:", "edge:")))
+    rng.shuffle(multi)
+    sched = Scheduler(env.PKG, "line")
+    sched.install()
+    budget = 2500 if shard["tier"] == "quick" else 120000
+    try:
+        for name in multi:
+            ids = [i for i in g[name] if p[i]["fn"] in ("from_bank_code", "candidates")]  # short calls: no thinning
+            if len(ids) < 1 or mon.evaluations >= budget:
+                continue
+            a = rng.choice(ids)
+            b = rng.choice(ids)
+            want = [calls.digest(calls.execute(S, p[a])), calls.digest(calls.execute(S, p[b]))]
+            thunks = [lambda a=a: calls.execute(S, p[a]), lambda b=b: calls.execute(S, p[b])]
+            base = sched.run(thunks, first=1)
+            na, nb = base["steps"]
+            # the call under test is stopped at every one of its steps (the windows that matter there are one line
+            # wide); the partner's suspension points are thinned to about 30 (it holds what it holds for many steps)
+            step_a = max(1, na // 400)
+            step_b = max(1, nb // (30 if shard["tier"] == "quick" else 200))
+            for k2 in range(1, nb + 1, step_b):
+                for k1 in range(1, na + 1, step_a):
+                    r = sched.run(thunks, first=1, preempt={(1, k2), (0, k1)})
+                    mon.ev()
+                    mon.tally("two_point_schedules")
+                    if r["hung"]:
+                        mon.inconclusive.append("two-point schedule hung")
+                        continue
+                    for w_, out in enumerate(r["results"]):
+                        if calls.digest(out) != want[w_]:
+                            mon.viol(f"concurrent_outcome_differs_from_solo:{p[(a, b)[w_]]['fn']}:two_preemption_points", {"pair": [p[a], p[b]], "schedule": {"first": 1, "preempt": [[1, k2], [0, k1]]}, "worker": w_}, "solo outcome", json.dumps(out, default=str)[:300])
+            mon.distinct(("twopoint", a, b))
+            mon.tally("pairs_explored_with_two_preemption_points")
+    finally:
+        sched.uninstall()
+    mon.sample({"two_point_pair_families": multi[:3]})
+
+
 def run_afterfail(shard, mon, S, p):
     """The main thread makes calls that fail (handled), then a second thread makes ordinary calls.  Whatever a
     failed call leaves behind (a lock that was not released, a half-replaced table) must not change what the
@@ -896,7 +945,7 @@ def run_shard(shard, out_base):
     S = judge.lib()
     calls.capture_warnings()
     p = the_pool(shard["tier"], shard.get("pool_file"))
-    {"explore": run_explore, "stress": run_stress, "cold": run_cold, "solo": run_solo, "coldsched": run_coldsched, "coldfocus": run_coldfocus, "afterfail": run_afterfail, "fresh": run_fresh_explore}[shard["kind"]](shard, mon, S, p)
+    {"explore": run_explore, "stress": run_stress, "cold": run_cold, "solo": run_solo, "coldsched": run_coldsched, "coldfocus": run_coldfocus, "afterfail": run_afterfail, "twopoint": run_twopoint, "fresh": run_fresh_explore}[shard["kind"]](shard, mon, S, p)
     return mon.result(out_base)
 
 
